@@ -7,7 +7,7 @@
 namespace vf { namespace c10 {
 
 void register_unit_families() { register_group_a(); }
-uint64_t random_cases(bool thorough) { return thorough ? 60000 : 1200; }
+uint64_t random_cases(bool thorough) { return thorough ? 200000 : 1500; }
 
 // ---------------------------------------------------------------- shipped Theta images written by Java: cross-language hashing
 // (their read-outs are compared by the generic shipped-image cases).  The estimation images were produced in Java by update(i),
@@ -100,6 +100,15 @@ static void legacy_theta_case(const LegacyTheta& L) {
     } catch (const std::exception& e) { checked(); fail(key + "deserialize-threw", e.what()); }
     count("legacy_theta_" + P);
   }
+  // zero-copy reader on the same legacy image
+  try {
+    const auto wv = wrapped_compact_theta_sketch::wrap(L.img.data(), L.img.size(), L.seed);
+    const std::string key = "legacy|theta|" + L.name + "|wrap|";
+    VF_CHECK(wv.is_empty() == L.empty, key + "is-empty", "");
+    VF_CHECK(wv.get_theta64() == L.theta, key + "theta", "");
+    VF_CHECK(theta_entries(wv) == L.entries, key + "entries", "got " + std::to_string(wv.get_num_retained()));
+    count("legacy_theta_wrap");
+  } catch (const std::exception& e) { checked(); fail("legacy|theta|" + L.name + "|wrap|threw", e.what()); }
   count("legacy_" + L.name);
   sig(img_hash(L.img));
 }
